@@ -6,7 +6,7 @@ rm -rf $S/repo && rsync -a --exclude target --exclude .git /repo/ $S/repo/
 cd /verif
 VX_UNIT=${VX_UNIT:-P} python3 tools/splice.py $S/repo contracts/mpd_protocol/*.vspec > $S/report.json || exit 2
 cd $S/repo
-verus --crate-type=lib --edition=2024 --crate-name mpd_protocol -L dependency=$D -L dependency=$S --extern ahash=$(ls $D/libahash-*.rlib) --extern bytes=$(ls $D/libbytes-*.rlib) --extern nom=$(ls $D/libnom-*.rlib) --extern tracing=$(ls $D/libtracing-*.rlib) --extern tokio=$S/libtokio.rlib --import tokio=$S/vx_tokio.vir --extern vx_base=$S/libvx_base.rlib --import vx_base=$S/vx_base.vir --extern vx_spec=$S/libvx_spec.rlib --import vx_spec=$S/vx_spec.vir --cfg 'feature="async"' "$@" mpd_protocol/src/lib.rs 2>&1 | grep -v "^warning: unused\|^warning: unnecessary" | grep -B2 -A14 "^error\|verification results" | head -${HEAD:-120}
+verus --crate-type=lib --edition=2024 --crate-name mpd_protocol -L dependency=$D -L dependency=$S --extern ahash=$(ls $D/libahash-*.rlib) --extern bytes=$(ls $D/libbytes-*.rlib) --extern nom=$S/libnom.rlib --import nom=$S/vx_nom.vir --extern tracing=$(ls $D/libtracing-*.rlib) --extern tokio=$S/libtokio.rlib --import tokio=$S/vx_tokio.vir --extern vx_base=$S/libvx_base.rlib --import vx_base=$S/vx_base.vir --extern vx_spec=$S/libvx_spec.rlib --import vx_spec=$S/vx_spec.vir --cfg 'feature="async"' "$@" mpd_protocol/src/lib.rs 2>&1 | grep -v "^warning: unused\|^warning: unnecessary" | grep -B2 -A14 "^error\|verification results" | head -${HEAD:-120}
 python3 - <<'PY'
 import json,glob
 for f in glob.glob('/var/tmp/vxs/report*.json'):
